@@ -34,10 +34,10 @@ func BaseDocs() []*Doc {
 				F("a", F("id")).With(Dir{"include", VarRef("b")}), F("s").With(Dir{"skip", VarRef("t")})}}}},
 		// B8 duplicate response keys with sub-selections, nested fragments
 		Q(F("a", F("id")), F("a", F("s"), In("A", F("kid", F("id")))), In("", F("a", F("kid", F("s"))))),
-		// B10 per-type fields and covariant field types behind an interface-typed list (abstract dispatch: reflection only)
-		Q(F("nameds", F("name"), F("buddy", F("__typename"), F("name"), In("A", F("onlyA")), In("B", F("onlyB")))), F("as", F("onlyA"), F("buddy", F("onlyA"), F("buddy", F("id")))), F("b", F("onlyB"), F("buddy", F("onlyB")))),
 		// B9 interface-typed fields only (no unions): in-claim for every strategy
 		Q(F("named", F("name"), F("i"), F("kid", F("id"))), F("nameds", F("name")), F("a", F("named", F("name")), F("mnamed", F("i")))),
+		// B10 per-type fields and covariant field types behind an interface-typed list (abstract dispatch: reflection only)
+		Q(F("nameds", F("name"), F("buddy", F("__typename"), F("name"), In("A", F("onlyA")), In("B", F("onlyB")))), F("as", F("onlyA"), F("buddy", F("onlyA"), F("buddy", F("id")))), F("b", F("onlyB"), F("buddy", F("onlyB")))),
 	}
 }
 
